@@ -44,6 +44,7 @@ def _case(draw, big=False):
     # a fraction of the cases is also compiled (ASan/UBSan, exactly-sized buffers) and compared with my reading of the text
     case["compile"] = draw(st.integers(0, 5 if not big else 2)) == 0
     case["yexp"] = [draw(st.integers(-12, 0)) for _ in range(6)]
+    case["path_as_str"] = draw(st.booleans())  # TemplateLoader.render(path: Path | str)
     # compiled cases also execute the cuSPARSE kernels (host emulation, ASan/UBSan, exactly-sized device buffers) on a batch
     case["cuda"] = draw(CU.batch()) if case["compile"] else None
     return case
@@ -188,7 +189,7 @@ def check_case(case, tier):
     with N.Scratch() as d, N.ThermalPatch(case):
         try:
             net = N.build_network(case)
-            projs = N.render(net, d, jac_pattern=True, templates="all" if case.get("compile") else "ode")
+            projs = N.render(net, d, jac_pattern=True, templates="all" if case.get("compile") else "ode", path_as_str=bool(case.get("path_as_str")))
         except Exception as e:
             import traceback
 
